@@ -119,16 +119,21 @@ def replay_finding(args) -> Dict:
             out['detail'] = '; '.join(same)[:300] if same else f'compiled program shows no deviation at {tag}: {cfind[:3]}'
         elif what == 'mc_step':
             pre, op, actor = wit.get('pre_holder'), wit.get('op'), wit.get('actor')
-            res, raw = concrete.run_mc_history(info, pc, d, pre, op, actor, wit.get('clients', ['c0', 'c1']))
+            res, raw = concrete.run_mc_history(info, pc, d, pre, op, actor, wit.get('clients', ['c0', 'c1']),
+                                                wit.get('claim_reply'))
             if '__error__' in res:
                 out['detail'] = str(res['__error__'])[:300]
             else:
                 holder = res['__holder__'][0]
                 want = [] if holder == 'None' else [f'client:{holder}']
                 bad = {k: v for k, v in res.items() if not k.startswith('__') and not k.startswith('step:') and v != want}
-                stepbad = 'forwarded' in text or 'dispatcher' in text or 'reply' in text or 'argument' in text
-                out['reproduced'] = bool(bad) or stepbad and _step_deviates(res, text)
-                out['detail'] = f'holder={holder} deliveries={ {k: v for k, v in res.items() if not k.startswith("__")} }'[:400]
+                step_findings = res.get('__step_findings__', [])
+                if 'out-event' in text and 'delivered to' in text:
+                    out['reproduced'] = bool(bad)
+                else:
+                    out['reproduced'] = bool(step_findings) or _step_deviates(res, text)
+                out['detail'] = (f'holder={holder} deliveries={ {k: v for k, v in res.items() if not k.startswith("__")} } '
+                                 f'step: {step_findings}')[:500]
         elif what == 'facilities':
             hits = []
             for hp in (False, True):
